@@ -919,3 +919,9 @@ def install(ex):
     def t_time(I):
         return SReal(I.fresh("now", z3.RealSort()))
     reg("time.time", t_time)
+
+    def ctx_suppress(I, *classes):
+        """contextlib.suppress: swallows exactly the exceptions matching one of the classes"""
+        from .values import CtxMgr
+        return CtxMgr(lambda I2: None, lambda I2, exc: exc is not None and I2.exc_matches(exc, tuple(classes)))
+    reg("contextlib.suppress", ctx_suppress)
